@@ -6,10 +6,17 @@ ID = "C12"
 LEAN_MODULES = ["Gv.Props.C12"]
 REQUIRED_THEOREMS = ["Gv.Props.C12." + n for n in [
     "trackers_spec", "removed_iff", "site_removed_iff", "ends_mode_removes_maximal_prefix_suffix",
-    "kept_removed_partition", "result_eq_select_kept", "removeCharacterSites_unfold", "wildcard_follows_alphabet"]]
+    "kept_removed_partition", "result_eq_select_kept", "removeCharacterSites_unfold", "removeMajoritySites_unfold", "wildcard_follows_alphabet",
+    # per-sequence variant (RemoveCharacterSeqs / RemoveGapSeqs)
+    "seqCounts_spec", "removeCharacterSeqs_never_panics", "seq_removed_iff", "seqs_result_wellformed",
+    "gapSeq_removed_iff"]]
 LEVEL_TEXT = ("Lean theorems about the model of RemoveCharacterSites / RemoveMajorityCharacterSites (counting with the "
               "alignment's own wildcard, ends-mode trackers, removal pass): the trackers compute the maximal qualifying prefix "
-              "and suffix, kept and removed indices partition the columns, the result is the selection of the kept columns; tied to "
+              "and suffix, kept and removed indices partition the columns, the result is the selection of the kept columns; and "
+              "about the model of RemoveCharacterSeqs / RemoveGapSeqs on a well-formed alignment: never a panic, a row is removed "
+              "iff its counts (the same counts as the site variant, wildcard of the alignment's own alphabet) meet the cutoff, the "
+              "other rows are kept in order with names and sequences untouched, the returned count is the number of removed rows, "
+              "and the result is again a well-formed alignment; tied to "
               "/repo by bounded-exhaustive + random correspondence over small alphabets containing gap and N/X in both cases, all "
               "cutoffs incl. exact ties, all 2^5 option combinations, and an independently stated predicate.")
 LEVEL_NOTE = ("Trusted: Lean kernel; harness/oracle/driver; the float threshold `float64(nb) >= cutoff*float64(total)` is evaluated "
@@ -17,8 +24,13 @@ LEVEL_NOTE = ("Trusted: Lean kernel; harness/oracle/driver; the float threshold 
 TECHNIQUE = "Lean 4 proof (list induction over the tracker loop) + bounded-exhaustive differential correspondence"
 RULE = ("exhaustive: all alignments of 2 rows x 3 columns over {A,a,N,X,-,n} with a rotating choice of cutoff/option sets; random: "
         "1..4 rows x 1..6 columns, nucleotide and protein, cutoffs {0,1,1/2,1/3,2/3,1/4,3/4,2,exact-tie fractions}, all 2^5 options, "
-        "character sets of 1..2 characters; per-sequence variant through the C01 histories; non-trivial = some column at an exact-tie fraction or ends mode")
-PARTIAL = ["the per-sequence variant RemoveCharacterSeqs is modelled and checked through the C01 histories (no separate theorem here)",
+        "character sets of 1..2 characters; per-sequence variant (RemoveCharacterSeqs / RemoveGapSeqs) on the same random alignments "
+        "with cutoffs incl. exact ties over the row length and all 2^3 option combinations, the empty alignment and the "
+        "all-removed case (also through the C01 histories); non-trivial = some column / row at an exact-tie fraction, ends mode, "
+        "or an ignore option set")
+PARTIAL = ["the per-sequence theorems (model in Model/Bag.lean, shared with C01) assume a well-formed alignment (AlignWF: unique "
+           "names, rows of the cached length) - with duplicate names re-adding the kept rows renames or drops them, which is "
+           "outside the statement; the correspondence cases build the alignment row by row from distinct names",
            "majority variant: the qualification list comes from MaxCharStats (C14: order-independence theorem); the removal pass "
            "theorems apply to it unchanged",
            "cutoffs outside [0,1] are outside the quantifier (RemoveMajorityCharacterSites does not reset them, contrary to its comment)"]
@@ -55,9 +67,19 @@ def gen(rng, tier):
         yield Case("rmsites", [alpha, rows_str(rows), rng.choice(["-", "N", "X", "a", "-N", "An", "x"]), cut] + opts,
                    bool(opts[0]) or "/%d" % n in cut, "rmsites")
         yield Case("rmmajsites", [alpha, rows_str(rows), cut, opts[0], opts[2], opts[3]], True, "rmmajsites")
+        # per-sequence variant: exact-tie fractions are over the row length (and over what the ignore options leave)
+        cutL = rng.choice(CUTS + ["%d/%d" % (rng.randint(0, L), L), "%d/%d" % (rng.randint(0, L), max(1, L - 1))])
+        yield Case("rmseqs", [alpha, rows_str(rows), rng.choice("-NXaAnx"), cutL, opts[1], opts[2], opts[3]],
+                   "/%d" % L in cutL or bool(opts[2]) or bool(opts[3]), "rmseqs")
+        if rng.random() < 0.5:
+            yield Case("rmgapseqs", [alpha, rows_str(rows), cutL, opts[3]], "/%d" % L in cutL or bool(opts[3]), "rmgapseqs")
     # the empty alignment
     yield Case("rmsites", [1, "_", "-", "1/2", 0, 0, 0, 0, 0], False, "rmsites-empty")
     yield Case("rmmajsites", [1, "_", "1/2", 0, 0, 0], False, "rmmajsites-empty")
+    yield Case("rmseqs", [1, "_", "-", "1/2", 0, 0, 0], False, "rmseqs-empty")
+    yield Case("rmgapseqs", [0, "_", "0", 1], False, "rmgapseqs-empty")
+    # every row removed: the alignment reports the empty length
+    yield Case("rmgapseqs", [1, "a:--,b:-A", "1/2", 0], True, "rmgapseqs-all-removed")
 
 
 def shrink(c):
